@@ -196,11 +196,12 @@ let handle toks =
         | OK q -> "K:" ^ si q
         | OE (r, o) -> Printf.sprintf "E:%d:%s" (int_of_nat r)
             (match o with ORsp -> "R" | OTimeout -> "TIMEOUT" | OCancelled -> "CANCELLED" | ORuntime -> "RUNTIME")
-        | OL -> "L" in
+        | OL -> "L"
+        | _ -> "" in
       let st = ref init in
       let parts = List.map (fun t ->
         let (s', os) = step_obs !st (ev_of t) in st := s';
-        String.concat " " (List.map show_o os)) evs in
+        String.concat " " (List.filter (fun x -> x <> "") (List.map show_o os))) evs in
       let pending = List.length (List.filter (fun r ->
         (match r.r_phase with PDone _ -> false | _ -> true) && (match r.r_fut with FPending -> true | _ -> false)) (!st).reqs) in
       String.concat " / " parts ^ " // listeners=" ^ string_of_int pending ^ " seq=" ^ si (!st).pack_seq
